@@ -211,7 +211,7 @@ def draws_only_from_model(c0: bool, c1: bool, c2: bool, t0: int, t1: int, t2: in
 
 
 class _RecRandomModule:
-    """stand-in for the `random` module as seen by ECAgent.Core: records how generators are constructed"""
+    """stand-in for the `random` module as seen by ECAgent.Core: records how generators are constructed and seeded"""
 
     def __init__(self):
         self.made = []
@@ -219,7 +219,15 @@ class _RecRandomModule:
 
         class Random:
             def __init__(self, *a, **k):
-                outer.made.append((self, a, k))
+                if k or len(a) > 1:
+                    raise hx.StubLimit("random.Random(%r, %r)" % (a, k))
+                self.seeded_with = list(a)          # [] = constructed without a seed (OS entropy)
+                outer.made.append(self)
+
+            def seed(self, *a, **k):
+                if k or len(a) > 1:
+                    raise hx.StubLimit("Random.seed(%r, %r)" % (a, k))
+                self.seeded_with = list(a)
         self.Random = Random
 
     def __getattr__(self, n):
@@ -244,14 +252,14 @@ def seed_plumbing(seed: int, none_seed: bool) -> bool:
         hx.reach('seed_zero')
     if none_seed:
         hx.reach('no_seed')
-    if len(rec.made) != 2:
-        return hx.end(hx.fail("generators constructed by two Model() calls", got=len(rec.made)))
-    for (obj, a, k), model in zip(rec.made, (m, m2)):
-        # exactly one generator per model, constructed from exactly the caller's seed, stored as model.random
-        if k or len(a) != 1 or a[0] is not s:
-            return hx.end(hx.fail("the model's generator is not seeded with exactly the caller's seed", args=a, kwargs=k, seed=s))
-        if model.random is not obj:
-            return hx.end(hx.fail("model.random is not the generator constructed from the seed"))
+    for model in (m, m2):
+        # the model owns a generator made during ITS construction and seeded (at construction or by seed()) with exactly
+        # the caller's seed - None meaning "no seed given"
+        g = model.random
+        if not any(g is x for x in rec.made):
+            return hx.end(hx.fail("model.random was not created by this model's construction (shared / pre-built generator?)"))
+        if not (len(g.seeded_with) == 1 and g.seeded_with[0] is s) and not (s is None and g.seeded_with == []):
+            return hx.end(hx.fail("the model's generator is not seeded with exactly the caller's seed", seeded_with=g.seeded_with, seed=s))
     if m.random is m2.random:
         return hx.end(hx.fail("two models share a generator"))
     return hx.end(True)
@@ -299,9 +307,9 @@ def batch_seed(seed: int, which: int) -> bool:
     hx.reach('built')
     if len(rec.made) != 1:
         return hx.end(hx.fail("models built by the runner", got=len(rec.made)))
-    obj, a, k = rec.made[0]
-    if k or len(a) != 1 or a[0] is not seed:
-        return hx.end(hx.fail("the worker's model was not seeded with the seed among its parameters", args=a, kwargs=k,
+    g = rec.made[0]
+    if not (len(g.seeded_with) == 1 and g.seeded_with[0] is seed):
+        return hx.end(hx.fail("the worker's model was not seeded with the seed among its parameters", seeded_with=g.seeded_with,
                               model_class=cls.__name__))
     return hx.end(True)
 
@@ -485,6 +493,38 @@ def rerun(r0: int, r1: int, r2: int, g0: int) -> bool:
     return hx.end(True)
 
 
+def query_order(h0: int, h1: int, h2: int, qx: int, qy: int, lw: int) -> bool:
+    """
+    pre: 0 <= h0 < 8 and 0 <= h1 < 8 and 0 <= h2 < 8
+    pre: 0 <= qx <= 3 and 0 <= qy <= 3 and 0 <= lw <= 2
+    post: _
+    """
+    # lists the framework hands to model code (which then draws from them) are part of the trajectory: the same positional
+    # query answered under two different set-iteration orders / address orders gives the same list in the same order
+    hx.begin()
+    wrap = hx.P['wrap']
+
+    def ask(order):
+        m = Model(seed=1, logger=NULL_LOGGER)
+        env = Env.SpaceWorld(m, 3, 3, 0, wrap_env=wrap)
+        m.environment = env
+        for i, (x, y) in enumerate(((0, 0), (3, 0), (0, 3), (1, 1))):
+            a = HA("q%d" % i, m)
+            a.h = order[i % 3]
+            env.add_agent(a, x, y, 0)
+        HavocSet.order, HavocSet._k, HavocSet.iterated = list(order), 0, 0
+        with _Patch(Havoc([0, 0, 0])):
+            return [a.id for a in env.get_agents_at(qx, qy, 0, leeway=lw)]
+    one = ask([h0, h1, h2])
+    two = ask([0, 0, 0])
+    if len(one) >= 2:
+        hx.reach('several_hits')
+    if one != two:
+        return hx.end(hx.fail("a positional query's answer depends on set-iteration / address order", first=one, second=two,
+                              query=(qx, qy), leeway=lw, wrap=wrap))
+    return hx.end(True)
+
+
 import ECAgent.Decode as _D
 
 
@@ -594,6 +634,8 @@ def obligations(tier):
           labels=("two_steps",), timeout=900, encoded=(Env.DiscreteWorld.get_moore_neighbours, Env.DiscreteWorld.get_neumann_neighbours,
                                                        Env.DiscreteWorld.get_neighbours, Environment.get_agents, Env.SpaceWorld.get_agents_at),
           bounds={"world": "2x2 GridWorld, 3 agents", "timesteps": 2, "list consumed": "pop(randrange(len)) on the framework's answer"}),
+        X("query_order", query_order, parts=[{"wrap": True}, {"wrap": False}], labels=("several_hits",), timeout=600,
+          encoded=(Env.SpaceWorld.get_agents_at,), bounds={"world": "4x4 continuous, 4 agents (three on the border)", "query": "any point, leeway 0..2"}),
         X("decoded_twice", decoded_twice, labels=("stepped",), timeout=300, encoded=(_D.Decoder.decode, Environment.get_random_agent),
           bounds={"description": "1 system, 2 agents, decoded twice from the same dict", "timesteps": 2}),
         X("batch_seed", batch_seed, labels=("built",), timeout=300,
